@@ -85,12 +85,22 @@ def to_argv(v, outdir, rng=None):
         chunks.append(['-twopl'])
     for k in ORDER:
         if v.get(k) is not None:
-            chunks.append(['-' + k, repr(v[k]) if isinstance(v[k], float) else str(v[k])])
+            txt = repr(v[k]) if isinstance(v[k], float) else str(v[k])
+            if k == 'skew' and v.get('skew_text'):
+                txt = v['skew_text']
+            chunks.append(['-' + k, txt])
     if rng is not None:
         rng.shuffle(chunks)
         for c in chunks:
             if c[0] in GEN_LONG and rng.random() < 0.15:     # documented long forms
                 c[0] = GEN_LONG[c[0]]
+                if rng.random() < 0.25 and c[0] not in ('--ties1', '--ties2', '--numberofagents1', '--numberofagents2',
+                                                         '--numberofagents3', '--lecturerlowerquotas', '--lecturerupperquotas',
+                                                         '--lowerquotas'):
+                    c[0] = c[0][:-2]                          # argparse accepts unambiguous prefixes of long options
+        for c in chunks:
+            if len(c) == 2 and rng.random() < 0.08 and not str(c[1]).startswith('-'):
+                c[:] = [c[0] + '=' + c[1]]                    # argparse's attached flag=value spelling
     return [t for c in chunks for t in c]
 
 
